@@ -11,8 +11,8 @@ import hostile as H
 PROP = "C01"
 LEVEL = "exploration"
 RULE = ("hostile-grammar histories (frames for every identifier the node listens to, all SDO command bytes, mutated "
-        "multi-frame SDO dialogues, ticks, API calls, driver faults) on generated dictionaries and builds, plus enumerated block downloads around the transfer-buffer boundary (sizes 875..896 / 1771..1779 x announced size x extra segments x last flag x end n) and an enumerated "
-        "SDO server-state x command-byte x payload sweep; a history counts as non-trivial if it executed >= 20 steps and "
+        "multi-frame SDO dialogues, ticks, API calls, driver faults) on generated dictionaries and builds, plus enumerated block downloads around the transfer-buffer boundary (sizes 875..896 / 1771..1779 x announced size x extra segments x last flag x end n) an enumerated "
+        "SDO server-state x command-byte x payload sweep, and two-frame cycles (every command byte x 3 objects x 3 size fields, followed by each of 17 continuation frames, segment frames also with alternating toggle bit) and short random sequences repeated 150..900 times without reset (cumulative cursor drift); a history counts as non-trivial if it executed >= 20 steps and "
         "produced >= 1 transmitted frame or callback; distinct = different command script")
 ASSUMPTIONS = [
     "API preconditions respected by the workload: emergency index < table length, buffer API only on strings/domains, "
@@ -135,6 +135,15 @@ def plan(tier, seed):
     # enumerated buffer-boundary block downloads (complete in both tiers)
     for lo in range(0, 18, 3):
         items.append(("boundary", "asan", lo, 3))
+    # enumerated two-frame cycles repeated without reset: cumulative drift of a buffer cursor or counter (complete in both tiers)
+    for c0 in range(0, 256, 8):
+        items.append(("pairloop", "asan", c0, 8, 150 if tier == "quick" else 900))
+    if tier == "thorough":
+        for i in range(64):
+            items.append(("cycle", "asan2" if i % 4 == 3 else "asan", i, 40))
+    else:
+        for i in range(16):
+            items.append(("cycle", "asan", i, 6))
     # enumerated state x command sweep (complete in both tiers)
     for st in SWEEP_STATES:
         for c0 in range(0, 256, 32):
@@ -207,6 +216,50 @@ def work(item, ctx):
                 res.nt("boundary", size, announce)
         if lo == 0:
             res.sample({"boundary": "block download of %d bytes announced as %d, last segment flagged / not, 0/1/2/127 extra segments, end n in {0,6,7}" % (sizes[0], sizes[0])})
+    elif kind == "pairloop":
+        # (X, Y) repeated N times on one node without any reset in between: X = every command byte with the multiplexer of a large
+        # domain / a string / a 32-bit object and three size fields, Y = one of the continuation frames of the protocol
+        _, variant, c0, n, reps = item
+        exe = ctx["exes"][variant]
+        cfg = H.full_config(random.Random(7), 1, nodeid=1, tmrnum=16, freq=1000)
+        f = lambda b: "rx 601 8 %s" % (bytes(b) + bytes(8))[:8].hex()
+        conts = [[0x00, 1, 2, 3, 4, 5, 6, 7], [0x01, 1, 2, 3, 4, 5, 6, 7], [0x10, 1, 2, 3, 4, 5, 6, 7], [0x1D, 9, 9, 9, 9, 9, 9, 9], [0x03, 1, 2, 3, 4, 5, 6, 7], [0x02, 1, 2, 3, 4, 5, 6, 7], [0x60], [0x70],
+                 [0x01, 0xAA, 0xBB, 0xCC, 0xDD, 0xEE, 0xFF, 0x11], [0x81, 1, 2, 3, 4, 5, 6, 7], [0x7F, 1, 2, 3, 4, 5, 6, 7], [0xC1], [0xDD], [0xA3], [0xA2, 1, 127], [0xA2, 0, 1], [0xA1]]
+        for cmd in range(c0, c0 + n):
+            for m in (bytes([0x20, 0x20, 9]), bytes([0x10, 0x20, 4]), bytes([0x00, 0x20, 2])):
+                for sz in (5, 0, 2000):
+                    x = f(bytes([cmd]) + m + sz.to_bytes(4, "little"))
+                    lines = []
+                    ncyc = 0
+                    for y in conts:
+                        bodies = [[x, f(y)]]
+                        if y[0] < 0x20 or y[0] in (0x60, 0x70):
+                            bodies.append([x, f(y), x, f([y[0] ^ 0x10] + y[1:])])       # segment frames with alternating toggle bit
+                        for body in bodies:
+                            lines += body * (reps * 2 // len(body)) + ["tick 1"]
+                            ncyc += 1
+                    res.evals += 1
+                    res.counters["pairloop_cycles"] += ncyc
+                    res.counters["pairloop_frames"] += 2 * reps * ncyc
+                    run_history(res, exe, cfg, lines, ("pairloop", cmd, m.hex(), sz), count=False)
+            res.nt("pairloop", cmd)
+    elif kind == "cycle":
+        # a short random sequence of hostile frames repeated many times
+        _, variant, idx, per = item
+        exe = ctx["exes"][variant]
+        ns = 2 if variant.endswith("2") else 1
+        for h in range(per):
+            rng = random.Random(F.seed_for(seed, "C01cycle", idx, h))
+            cfg = H.full_config(rng, ns, drop=("1010",) if rng.random() < 0.5 else ())
+            g = H.Hostile(rng, cfg, ns)
+            seq = []
+            for _ in range(rng.choice([1, 2, 2, 3, 4, 6])):
+                seq += [g.sdo_frame(rng.randrange(ns))] if rng.random() < 0.8 else [l for l in g.step() if not l.startswith(("restart", "stop", "nmtreset", "fault"))][:8]
+            lines = seq * rng.choice([150, 300, 900]) + ["tick 2"]
+            res.evals += 1
+            res.counters["random_cycles"] += 1
+            run_history(res, exe, cfg, lines, ("cycle", idx, h), count=False)
+            res.nt("cycle", tuple(seq))
     elif kind == "sweep":
         _, variant, st, c0, n = item
         exe = ctx["exes"][variant]
